@@ -62,19 +62,25 @@ pub fn total_stream(casefile: &str)
 			{
 				xml.push(tokens.as_xml(source).map(|l| l.len() + 1).sum::<usize>());
 			}
+			let kinds: Vec<String> =
+				tokens.base_tokens().iter().map(|t| format!("{}", *t as u8)).collect();
+			let kinds = kinds.join(" ");
 			let tree = parser::parse(&tokens);
+			let nerrors = tree.errors(&tokens).map(|e| e.errors.len()).unwrap_or(0);
 			let parsecodes = tree.errors(&tokens).map(|e| e.codes()).unwrap_or_default();
 			if !parsecodes.is_empty()
 			{
 				// main.rs stops here: no header, no dumps for a module with syntax errors
 				// (build_header asserts that there are none)
 				return format!(
-					"parseerr\tntok={}\tnodes={}\tdecls={}\tparse={}\txml={:?}",
+					"parseerr\tntok={}\tnodes={}\tdecls={}\tparse={}\txml={:?}\tnerr={}\tkinds={}",
 					ntok,
 					tree.num_parse_nodes(),
 					tree.num_declarations(),
 					crate::util::codes_to_string(&parsecodes),
-					xml
+					xml,
+					nerrors,
+					kinds
 				);
 			}
 			let header = tree.build_header();
@@ -84,12 +90,13 @@ pub fn total_stream(casefile: &str)
 				xml.push(header.as_xml(&tokens, source).map(|l| l.len() + 1).sum::<usize>());
 			}
 			format!(
-				"ok\tntok={}\tnodes={}\thdr={}\tdecls={}\tparse=[]\txml={:?}",
+				"ok\tntok={}\tnodes={}\thdr={}\tdecls={}\tparse=[]\txml={:?}\tnerr=0\tkinds={}",
 				ntok,
 				tree.num_parse_nodes(),
 				header.num_parse_nodes(),
 				tree.num_declarations(),
-				xml
+				xml,
+				kinds
 			)
 		});
 		println!("{}\t{}", id, res);
